@@ -17,10 +17,10 @@ from pbt.core import quiet
 # ------------------------------------------------------------------ reference dataset
 @st.composite
 def ref_dataset_specs(draw, max_levels=3, max_leaves=7, min_levels=1, min_leaves=2,
-                      n_genes=None, cells_per=None):
+                      n_genes=None, cells_per=None, allow_odd=False):
     """separable clusters by construction (recipe of DESIGN 1.1 'Reference cells')"""
     tree = draw(gen.trees(max_levels=max_levels, max_leaves=max_leaves, min_levels=min_levels,
-                          allow_odd=False, mappers=False, min_leaves=min_leaves))
+                          allow_odd=allow_odd, mappers=False, min_leaves=min_leaves))
     return {
         'tree': tree,
         'n_genes': n_genes or draw(st.integers(16, 30)),
